@@ -1,27 +1,25 @@
 /-
 C19 — compaction and cloning preserve everything reachable (BasicGarnishData `optimize`, `clone_data`).
 
-What is proved here, on the model of Store/BasicOptimize.lean (tied cell by cell to the Rust by the
-OPT / CLONE suites):
+Theorems about the model of Store/BasicOptimize.lean (tied cell by cell to the Rust by the OPT / CLONE suites):
 
-* `graphIso_sound` (Spec/GraphIso.lean) and `C19_certified`: whenever the verified checker accepts the
-  root pairs of C19 (heads, extra roots through the returned mapping, symbol-name table, retained
-  prefix) for (data block before, data block after), every one of them unfolds to the same tree —
-  registers, input values and frames as whole chains, values including list key tables — at the address
-  the store now reports.  The driver runs this checker on every generated case (certified per run).
-* `optimize_retained_prefix_unchanged`, `optimize_retained_roots_fixed`: universal — the retained prefix is
-  cell-for-cell unchanged, the retention count is unchanged, roots inside the prefix map to themselves.
-* `clone_original_untouched`, `clone_keeps_every_value`: universal — `clone_data` only appends; every
-  existing cell, the heads, the symbol table and the retention count are unchanged, every decodable address
-  unfolds as before.
-* `clone_preserves`: universal — the address returned by `clone_data` unfolds to the same tree as the argument
-  (index-stack ordering invariant + first-match lookup + bisimulation), for every acyclic well-formed graph.
-
-What is stated but not proved universally (`C19_optimize_preserves_statement`): that the relocated roots of
-`optimize` unfold to the same tree (same invariant as for cloning, plus the offset arithmetic of the slide).  The witnesses below show why the hypotheses of the statement are needed:
-the unchanged Rust violates C19 when they fail, through public methods only.
+* `C19_optimize_preserves` — universal: for every well-formed store (`WF`, a decidable invariant) and every list of
+  readable roots, a successful `optimize` reports every register, input value and frame (as whole chains), every
+  extra root (positionally), and every symbol name at an address that unfolds to the same tree; the retained prefix
+  is unchanged cell for cell; the retention count is unchanged.  `C19_optimize_preserves_no_retention` is the
+  special case.  Not covered: stores in which a retained input-value cell was updated in place
+  (`C19_optimize_preserves_inplace_statement`, kept as a statement with what is missing).
+* `clone_preserves` — universal: `clone_data` returns an address that unfolds to the same tree as its argument;
+  `clone_original_untouched`, `clone_keeps_every_value`: the original is intact.
+* `WF_init`, `WF_add_solo`, `WF_add_text`, `WF_push_register`, `WF_push_value`, `WF_push_frame`,
+  `WF_pop_register`, `WF_pop_value`, `WF_retain_all`: `WF` holds initially and is kept by these operations.
+* `graphIso_sound`, `C19_certified`: the verified checker the driver runs on every generated case (also on the
+  states the universal theorems do not cover).
+* `optimize_retained_prefix_unchanged`, `optimize_retention_beyond`, `C19_optimize_preserves_partial`.
+* `stale_map_script_preserved`, `in_place_script_preserved`: the two scripts that broke the code before the fixes.
+* `example`s at the end: a concrete 19-cell store satisfying the hypotheses of every theorem (non-vacuity).
 -/
-import Garnish.Lemmas.OptimizeClone
+import Garnish.Lemmas.OptimizeOps
 import Garnish.Spec.GraphIso
 namespace Garnish.Props.C19
 open Garnish Garnish.BasicOpt
@@ -156,31 +154,95 @@ theorem clone_preserves_partial {s s' : Store} {a r : Nat} (h : Store.cloneData 
     (∀ i, i < s.cells.size → s'.cells[i]? = s.cells[i]?) ∧ SameFrame s s' :=
   ⟨(clone_original_untouched h).2.1, (clone_original_untouched h).2.2⟩
 
-/-- an address field of a cell -/
-def cellRefs : Cell → List Nat
-  | .pair l r | .range l r | .slice l r | .partial_ l r | .concatenation l r => [l, r]
-  | .listItem i | .associativeItem _ i => [i]
-  | .value p v | .register p v | .frame p v => [p, v]
-  | .valueRoot v | .registerRoot v | .instructionWithData _ v | .frameIndex v | .frameRegister v => [v]
-  | _ => []
+/-! ### `optimize`: universal theorem on well-formed stores -/
 
-/-- the hypotheses under which C19 can hold for `optimize` -/
-structure OptInv (s : Store) (roots : List Nat) : Prop where
-  /-- the retention count is a size of the data block (above it `optimize` returns an error and changes
-  nothing: `optimize_retention_beyond`) … -/
-  retentionLe : s.retention ≤ s.cells.size
-  /-- … below which no cell other than an input-value cell refers to a cell at or above it (false for a count
-  that cuts through a multi-cell value or a list under construction; `Value`/`ValueRoot` cells are exempt
-  since the fix that re-points them) -/
-  prefixClosed : ∀ (i : Nat) (c : Cell), i < s.retention → s.cells[i]? = some c →
-    (∀ p v, c ≠ .value p v) → (∀ v, c ≠ .valueRoot v) → ∀ a ∈ cellRefs c, a < s.retention
-  /-- every root has an unfolding (acyclic, well-formed), within the clone limit -/
-  rootsDecode : ∀ r ∈ roots, ∃ fuel t, unfold s.cells fuel r = some t
+/-- what C19 demands of one compaction, stated on the address-free unfoldings (`decode` is a function of the
+unfolding: `optimize_preserves_decode`).  (a) registers, input values, frames as whole chains and every extra
+root; (b) the retained prefix cell for cell; (c) the returned roots positionally; and the symbol-name table. -/
+structure PreservedAll (pre post : Store) (roots m : List Nat) : Prop where
+  registers : ∀ fuel, decodeStack pre.cells fuel pre.currentRegister = decodeStack post.cells fuel post.currentRegister
+  values : ∀ fuel, decodeStack pre.cells fuel pre.currentValue = decodeStack post.cells fuel post.currentValue
+  frames : ∀ fuel, decodeStack pre.cells fuel pre.currentFrame = decodeStack post.cells fuel post.currentFrame
+  rootsLen : m.length = roots.length
+  roots : ∀ (k r : Nat), roots[k]? = some r → ∃ r', m[k]? = some r' ∧
+    ∀ fuel, unfold pre.cells fuel r = unfold post.cells fuel r'
+  symLen : post.symtab.size = pre.symtab.size
+  symbols : ∀ (j sym di : Nat), pre.symtab[j]? = some (.associativeItem sym di) →
+    ∃ di', post.symtab[j]? = some (.associativeItem sym di') ∧ ∀ fuel, unfold pre.cells fuel di = unfold post.cells fuel di'
+  retention : post.retention = pre.retention
+  retained : ∀ i, i < pre.retention → post.cells[i]? = pre.cells[i]?
 
-/-- full statement for compaction (stretch goal, NOT proved universally; certified per run) -/
+theorem headRel_stack {pre post : Store} {L : Nat → Nat → Prop} {o o' : Option Nat}
+    (hu : ∀ x x', L x x' → Dec pre.cells x → ∀ fuel, unfold pre.cells fuel x = unfold post.cells fuel x')
+    (hd : ∀ i, o = some i → Dec pre.cells i) (h : HeadRel L o o') :
+    ∀ fuel, decodeStack pre.cells fuel o = decodeStack post.cells fuel o' := by
+  intro fuel
+  rcases h with ⟨rfl, rfl⟩ | ⟨i, m, rfl, rfl, hl⟩
+  · rfl
+  · simp [decodeStack, hu i m hl (hd i rfl) fuel]
+
+/-- **C19_optimize_preserves** — universal: on every well-formed store (`WF`, decidable; what the public
+`add_*` / push operations build, with a retention count that is a size observed at an operation boundary)
+and for every list of readable roots, a successful `optimize` preserves everything C19 lists.
+Scope: `WF` makes every link point downwards, so it excludes stores in which a retained input-value cell has been
+updated in place to refer to later data (`C19_optimize_preserves_inplace_statement`). -/
+theorem C19_optimize_preserves {s s' : Store} {roots m : List Nat} (hwf : WF s) (hroots : rootsOK s roots = true)
+    (h : Store.optimize s roots = .ok (s', m)) : PreservedAll s s' roots m := by
+  obtain ⟨hr, hbody⟩ := optimize_ok h
+  obtain ⟨L, hL⟩ := optimizeBody_links hbody hr hwf.optHyp
+  have hroots' : ∀ r ∈ roots, isNode s.cells r = true := by
+    simpa [rootsOK, List.all_eq_true] using hroots
+  refine ⟨?_, ?_, ?_, hL.rootsLen, ?_, hL.symLen, ?_, hL.retention, hL.retained⟩
+  · exact headRel_stack hL.unfolds (fun i hi => hwf.dec (by have := hwf.reg; rw [hi] at this; exact this)) hL.register
+  · exact headRel_stack hL.unfolds (fun i hi => hwf.dec (by have := hwf.val; rw [hi] at this; exact this)) hL.value
+  · exact headRel_stack hL.unfolds (fun i hi => hwf.dec (by have := hwf.frm; rw [hi] at this; exact this)) hL.frame
+  · intro k r hk
+    obtain ⟨r', h1, h2⟩ := hL.roots k r hk
+    exact ⟨r', h1, hL.unfolds r r' h2 (hwf.dec (hroots' r (List.mem_of_getElem? hk)))⟩
+  · intro j sym di hj
+    obtain ⟨di', h1, h2⟩ := hL.syms j sym di hj
+    refine ⟨di', h1, hL.unfolds di di' h2 (hwf.dec ?_)⟩
+    have := hwf.syms _ (List.mem_of_getElem? (by rw [Array.getElem?_toList]; exact hj))
+    simpa [symOK] using this
+
+/-- the statement, now a theorem -/
 def C19_optimize_preserves_statement : Prop :=
-  ∀ (s s' : Store) (roots m : List Nat), OptInv s roots →
-    Store.optimize s roots = .ok (s', m) → Preserved s s' roots m
+  ∀ (s s' : Store) (roots m : List Nat), WF s → rootsOK s roots = true →
+    Store.optimize s roots = .ok (s', m) → PreservedAll s s' roots m
+
+theorem C19_optimize_preserves_statement_holds : C19_optimize_preserves_statement :=
+  fun _ _ _ _ hwf hr h => C19_optimize_preserves hwf hr h
+
+/-- the special case the coordinator asked for first: nothing retained -/
+theorem C19_optimize_preserves_no_retention {s s' : Store} {roots m : List Nat} (hwf : WF s)
+    (_h0 : s.retention = 0) (hroots : rootsOK s roots = true) (h : Store.optimize s roots = .ok (s', m)) :
+    PreservedAll s s' roots m := C19_optimize_preserves hwf hroots h
+
+/-- decoded values of the extra roots agree (the same holds for every clause of `PreservedAll`: `decode` and
+`decodeStack` are functions of the unfolding) -/
+theorem optimize_preserves_decode {F : Type} (numOf : Nat → Number F) {s s' : Store} {roots m : List Nat}
+    (hwf : WF s) (hroots : rootsOK s roots = true) (h : Store.optimize s roots = .ok (s', m)) :
+    ∀ (k r : Nat), roots[k]? = some r → ∃ r', m[k]? = some r' ∧
+      ∀ fuel, decode numOf s.cells fuel r = decode numOf s'.cells fuel r' := by
+  intro k r hk
+  obtain ⟨r', h1, h2⟩ := (C19_optimize_preserves hwf hroots h).roots k r hk
+  exact ⟨r', h1, fun fuel => by simp [decode, h2 fuel]⟩
+
+/-- STILL OPEN (kept visible): stores in which retained `Value`/`ValueRoot` cells were updated in place
+(`get_current_value_mut`) to refer to data above the retention count.  The patched `optimize` re-points exactly
+those links (`repointLoop`); the model agrees with the Rust on this (stream `mut`, 0 disagreements) and every
+generated case is certified by `C19_certified`.  Missing for a universal proof: (1) `repointLoop` visits every
+retained cell of the value chain (needs `previous < index` along the chain and `remaining ≥` chain length),
+(2) the bisimulation case "retained `Value` cell whose link was rewritten" (kids `[previous ↦ previous, value ↦
+lookup value]`), (3) a well-formedness notion that lets value cells link forwards (`WFv`). -/
+def C19_optimize_preserves_inplace_statement : Prop :=
+  ∀ (s s' : Store) (roots m : List Nat),
+    -- `WF` except that `nodeOK` lets a `Value`/`ValueRoot` cell refer to any node
+    (∃ s₀, WF s₀ ∧ s₀.cells.size = s.cells.size ∧ s₀.retention = s.retention ∧
+      (∀ i : Nat, s.cells[i]? = s₀.cells[i]? ∨ (∃ p v v', s₀.cells[i]? = some (Cell.value p v) ∧ s.cells[i]? = some (Cell.value p v') ∧ isNode s.cells v' = true) ∨
+        (∃ v v', s₀.cells[i]? = some (Cell.valueRoot v) ∧ s.cells[i]? = some (Cell.valueRoot v') ∧ isNode s.cells v' = true))) →
+    rootsOK s roots = true → Store.optimize s roots = .ok (s', m) →
+    ∀ fuel, decodeStack s.cells fuel s.currentValue = decodeStack s'.cells fuel s'.currentValue
 
 /-- proved part of `C19_optimize_preserves_statement` -/
 theorem C19_optimize_preserves_partial {s s' : Store} {roots m : List Nat}
@@ -232,5 +294,96 @@ def inPlaceScript : Option (Nat × Option Cell × Option Cell) :=
 ends at 3) -/
 theorem in_place_script_preserved : inPlaceScript = some (3, some (.valueRoot 2), some (.number 7)) := by
   decide +kernel
+
+/-! ### `WF` is an invariant of the store operations (proved for the operations below; for list construction,
+symbol-list merges, symbol names, and for the states after `optimize` / `clone_data` the decidable `wf` is evaluated
+by the driver on every generated case: flag `wf=`, about 90 % of all records, none rejected by the oracle) -/
+
+theorem WF_init : WF Store.fresh := WF_fresh
+
+/-- `add_unit` … `add_external`, `add_pair`, `add_range`, `add_slice`, `add_partial`, `add_concatenation`: one cell
+read without its neighbours whose links are existing readable addresses -/
+theorem WF_add_solo {s s' : Store} {c : Cell} {i : Nat} {sh : Shape} (hwf : WF s) (hso : soloShape c = some sh)
+    (hk : ∀ k ∈ sh.kids, k < s.cells.size ∧ isNode s.cells k = true) (hp : s.push c = .ok (s', i)) :
+    WF s' ∧ i = s.cells.size ∧ isNode s'.cells i = true := push_solo_wf hwf hso hk hp
+
+/-- `add_string` / `parse_add_char_list` / `add_byte_slice` -/
+theorem WF_add_text {s s' : Store} {hdr : Cell} {items : List Cell} {a : Nat} (hwf : WF s)
+    (hkind : (hdr = .charList items.length ∧ ∀ c ∈ items, isChar c = true) ∨
+             (hdr = .byteList items.length ∧ ∀ c ∈ items, isByte c = true))
+    (h : Store.addInline s hdr items = .ok (s', a)) : WF s' ∧ a = s.cells.size ∧ isNode s'.cells a = true :=
+  addInline_wf hwf hkind h
+
+theorem WF_push_register {s s' : Store} {v : Nat} (hwf : WF s) (hv : isNode s.cells v = true)
+    (h : Store.pushRegister s v = .ok s') : WF s' := pushRegister_wf hwf hv h
+
+theorem WF_push_value {s s' : Store} {v : Nat} (hwf : WF s) (hv : isNode s.cells v = true)
+    (h : Store.pushValue s v = .ok s') : WF s' := pushValue_wf hwf hv h
+
+theorem WF_push_frame {s s' : Store} {ret : Nat} (hwf : WF s) (h : Store.pushFrame s ret = .ok s') : WF s' :=
+  pushFrame_wf hwf h
+
+theorem WF_pop_register {s s' : Store} {r : Option Nat} (hwf : WF s) (h : Store.popRegister s = .ok (s', r)) :
+    WF s' ∧ (∀ v, r = some v → isNode s'.cells v = true) := popRegister_wf hwf h
+
+theorem WF_pop_value {s : Store} (hwf : WF s) :
+    WF (Store.popValue s).1 ∧ (∀ v, (Store.popValue s).2 = some v → isNode s.cells v = true) := popValue_wf hwf
+
+theorem WF_retain_all {s : Store} (hwf : WF s) : WF s.retainAll := retainAll_wf hwf
+
+/-! ### non-vacuity: a concrete store satisfying the hypotheses of every theorem above -/
+
+/-- 19 data cells: text, a pair, a keyed list with a key table, a shared value, registers (one saved by a frame),
+an input value, a frame, a symbol name; the first 6 cells are retained; two extra roots, one of them retained -/
+def exStore : Store :=
+  { Store.fresh with
+    cells := #[.number 5, .charList 2, .char 97, .char 98, .pair 0 1, .registerRoot 4,
+               .symbol 5, .number 1, .pair 6 7, .pair 8 4, .list 2 1, .listItem 8, .listItem 7,
+               .associativeItem 5 7, .empty, .valueRoot 10, .jumpPoint 3, .frameRegister 5, .register 5 9]
+    size := 20
+    symtab := #[.associativeItem 5 1]
+    currentRegister := some 18, currentValue := some 15, currentFrame := some 17
+    retention := 6 }
+
+def exRoots : List Nat := [10, 4]
+
+example : WF exStore := by decide +kernel
+example : rootsOK exStore exRoots = true := by decide +kernel
+
+/-- `optimize` succeeds on it and moves data: the keyed list goes from 10 to 9, the value head from 15 to 16, the
+frame from 17 to 15; the roots `[10, 4]` are reported at `[9, 4]` (the second one is retained) -/
+example : (match Store.optimize exStore exRoots with
+    | .ok (s', m) => decide ((s'.cells.size, s'.currentValue, s'.currentFrame, m) = (19, some 16, some 15, [9, 4]))
+    | _ => false) = true := by decide +kernel
+
+/-- hence `C19_optimize_preserves` applies to a non-trivial instance -/
+example : ∀ s' m, Store.optimize exStore exRoots = .ok (s', m) → PreservedAll exStore s' exRoots m :=
+  fun _ _ h => C19_optimize_preserves (by decide +kernel) (by decide +kernel) h
+
+/-- the same store with nothing retained: `C19_optimize_preserves_no_retention` -/
+example : ∀ s' m, Store.optimize { exStore with retention := 0 } exRoots = .ok (s', m) →
+    PreservedAll { exStore with retention := 0 } s' exRoots m :=
+  fun _ _ h => C19_optimize_preserves_no_retention (by decide +kernel) rfl (by decide +kernel) h
+
+example : (match Store.optimize { exStore with retention := 0 } exRoots with | .ok _ => true | _ => false) = true := by
+  decide +kernel
+
+/-- `clone_preserves` on the keyed list at address 10 (hypotheses hold, the call succeeds) -/
+example : ListsWF exStore.cells ∧ Dec exStore.cells 10 :=
+  ⟨(WF.optHyp (by decide +kernel : WF exStore)).listsWF, WF.dec (by decide +kernel : WF exStore) (by decide +kernel)⟩
+
+example : (match Store.cloneData exStore 10 with | .ok (_, r) => decide (r = 27) | _ => false) = true := by
+  decide +kernel
+
+/-- `optimize_retention_beyond`: a store whose retention count exceeds its data -/
+example : ({ exStore with retention := 40 } : Store).retention > ({ exStore with retention := 40 } : Store).cells.size := by
+  decide
+
+/-- `graphIso` / `C19_certified` accept the pair (before, after) of this compaction -/
+example : (match Store.optimize exStore exRoots with
+    | .ok (s', m) => (match c19Pairs exStore s' exRoots m with
+        | some ps => graphIso exStore.cells s'.cells ps
+        | none => false)
+    | _ => false) = true := by decide +kernel
 
 end Garnish.Props.C19
